@@ -671,7 +671,7 @@ fn gen11(seed: u64) -> WorldCase {
 pub fn c11_enumerated() -> u64 {
     (C11_FAMILIES * C11_VARIANTS) as u64
 }
-const C11_FAMILIES: usize = 9;
+const C11_FAMILIES: usize = 10;
 const C11_VARIANTS: usize = 12;
 
 fn gen11_enumerated(k: u64, seed: u64) -> WorldCase {
@@ -834,6 +834,26 @@ fn gen11_enumerated(k: u64, seed: u64) -> WorldCase {
             add(&mut ops, 0, "p1", text);
             for (n, b) in [("p1", 1usize), ("p0", 1), ("p2", 1), ("p1", 0), ("p0", 0)] {
                 exec(&mut ops, &mut r, 0, n, b, 1);
+            }
+        }
+        9 => {
+            // one built-in called with a run-time argument that changes between executions on
+            // one thread (whatever the function remembers of an earlier call must not matter:
+            // an affine conversion answered from a remembered factor, a memo keyed too coarsely)
+            label = "builtin-argument-changes";
+            let src = [
+                "uomConvert(x0, 'celsius', 'fahrenheit')",
+                "uomConvert(x0, 'fahrenheit', 'kelvin')",
+                "uomConvert(x0, 'kg', 'lb')",
+                "[x0, 0, 37].map(v, uomConvert(v, 'celsius', 'fahrenheit'))",
+                "[pow(x0, 2), abs(x0), sqrt(abs(x0)), floor(x0 / 3)]",
+                "[string(x0), f'{x0}', type(x0)]",
+            ][var % 6];
+            add(&mut ops, 0, "p0", src);
+            add(&mut ops, 0, "p1", "[p0, x0]");
+            for v in [100i64, 0, 37, -40, 100] {
+                bind(&mut ops, 0, "x0", V::Int(v + (var / 6) as i64));
+                exec(&mut ops, &mut r, 0, if var % 4 < 2 { "p0" } else { "p1" }, 0, 1 + (var % 2) as u8);
             }
         }
         _ => {
@@ -1323,6 +1343,8 @@ enum Sc {
     /// a function bound under a built-in function's or type's name, called inside a macro
     /// body (one and two macros deep) with a non-constant argument
     FuncInMacroBody { name: &'static str },
+    /// `x0.m()` where the bound map x0 has a field m and m also names a method
+    FieldVsMethodCalled { method: &'static str, bound: bool },
     FieldVsMethod { method: &'static str },
     /// `via_macro`: the referencing program mentions q only inside a macro body;
     /// `clone_alive`: a clone of the context is taken after the first exec and kept
@@ -1444,6 +1466,9 @@ fn scenarios(thorough: bool) -> Vec<Sc> {
     }
     for m in ["size", "contains", "map", "filter", "all"] {
         v.push(Sc::FieldVsMethod { method: m });
+    }
+    for m in ["size", "tagm", "helper"] {
+        v.push(Sc::FieldVsMethodCalled { method: m, bound: m != "size" });
     }
     for (through_ref, via_macro) in [(false, false), (true, false), (true, true)] {
         for clone_alive in [false, true] {
@@ -1662,6 +1687,22 @@ fn build12(sc: &Sc, seed: u64) -> WorldCase {
             bind(&mut ops, "x0", V::Map(m));
             add(&mut ops, "main", format!("x0.{}", method));
             expect(&mut ops, &mut r, "main", Want::Val(tag("field", method, uniq)));
+        }
+        Sc::FieldVsMethodCalled { method, bound } => {
+            // call position: the member is still the field, and a field value is not callable;
+            // the method of that name (built in, or bound by the caller) must not answer
+            label = format!("map-field-before-method-called{}", if *bound { "-bound-function" } else { "" });
+            let mut m = BTreeMap::new();
+            m.insert(method.to_string(), tag("field", method, uniq));
+            m.insert("other".to_string(), V::Int(1));
+            bind(&mut ops, "x0", V::Map(m));
+            if *bound {
+                ops.push(Op { t: t_exec, k: OpK::BindFunc { b: 0, name: method.to_string(), ret: tag("func", method, uniq) } });
+            }
+            add(&mut ops, "plain", format!("x0.{}", method));
+            expect(&mut ops, &mut r, "plain", Want::Val(tag("field", method, uniq)));
+            add(&mut ops, "main", format!("x0.{}()", method));
+            expect(&mut ops, &mut r, "main", Want::Fail);
         }
         Sc::ReplaceProgram { through_ref, via_macro, clone_alive } => {
             label = format!("replace-program{}{}{}", if *through_ref { "-referenced" } else { "" }, if *via_macro { "-in-macro-body" } else { "" }, if *clone_alive { "-clone-alive" } else { "" });
